@@ -99,7 +99,11 @@ class SGen:
         if k < 0.8:
             # a plain subject with markup characters, the fragment as the replacement
             return ["filter", C("<Z>&amp;"), "replace", [C("Z"), e], []]
-        if k < 0.93:
+        if k < 0.87:
+            # the fragment as the DELIMITER of a join over plain items
+            self.feat.add("fragment_as_join_delimiter")
+            return ["filter", ["list", [N(self.pv()), C("<i>"), C("&amp;")]], "join", [e], []]
+        if k < 0.94:
             # eval-context filters applied BY NAME through map: they must see the escaping
             # mode that is in force where the expression is evaluated
             self.feat.add("evalctx_filter_via_map")
